@@ -83,14 +83,20 @@ func main() {
 		Gen:     func(r *rand.Rand, tier string) []string { return genCases(r, tier) },
 		Run:     run,
 		Class:   class,
-		Workers: 8,
+		Workers: 16,
 		Timeout: 40 * time.Second,
 		Rule: "reflection walk over every config struct reachable from cli.CliConfig and from the config type of every plugin " +
-			"registered by core/import, phttp/import and grpc/import; per struct position one unknown and one misspelled key, per field " +
-			"one mistyped value, one out-of-range value per validate tag, null, a valid value, and env/property placeholders " +
-			"(set, unset, missing key, missing file, negative / too wide / non-literal text) by field kind; the same walk over a synthetic struct with the kinds no " +
-			"component uses (narrow integers, float32, maps of structs, interface{}); documented constraints (answlog.filter); random combinations of 2-4 " +
-			"of these mutations (outcome compared with the model, no demand); cli.readConfig in a child process for discard_overflow and unknown keys; " +
-			"a case is non-trivial when it carries a mutation (everything but kind=base)",
+			"registered by core/import, phttp/import and grpc/import; per struct position one unknown and one misspelled key, a required option left out; " +
+			"per plugin position a block that only names the plugin (every registered plugin), TYPE in another case, two type keys, a non-string type; per field " +
+			"one mistyped value, a fractional number for an integer, one out-of-range value per constraint (constraints = validate tags of the tree " +
+			"united with the snapshot docTags) and the bound itself, null, a valid value, and env/property placeholders " +
+			"(set, unset, missing key, missing file, upper-case tag type, blanks, several in one string, negative / too wide / non-literal text) by field kind; " +
+			"the standard properties file surrounds every key with prefix / suffix / case / blank decoys; the same walk over a synthetic struct with the kinds no " +
+			"component uses (narrow integers, float32, maps of structs, interface{}) plus boundary literals per kind through generated variables and " +
+			"generated properties files (keys that are prefixes of one another, comments, duplicates); random combinations of 2-4 " +
+			"of these mutations (outcome compared with the model, no demand); random VALID configurations of every root (random plugin per position, " +
+			"random optional fields, nested) with one unknown / misspelled key at every struct position and a mistyped value / unresolvable placeholder / null " +
+			"at every scalar of each; cli.readConfig in a child process for discard_overflow and unknown keys; " +
+			"a case is non-trivial when it carries a mutation (everything but kind=base / rbase)",
 	})
 }
